@@ -19,3 +19,4 @@ PROP = {
     "assumptions": STD_ASSUME + ["functions are deterministic and continuous on the bracket; accuracy >= 1e-14*|root| (>= 45 ulp of the root)",
                                  "the accuracy is within 2^90 of the bracket width: Ridder's method at least halves the bracket per iteration and the library stops after 100 iterations (with a warning); on a saturating function it does little better than halving, so atan(x-3) on [-1e308,1e308] to 1e-3 is beyond what the routine can do and outside this check"],
 }
+PROP["level_text"] += ' Accuracies reach the bracket width itself; brackets and features at the 1e285 scale; end values of either zero sign.'
